@@ -38,9 +38,17 @@ FUNCS = [
     ("rig/routing_table/utils.py", "intersect", ["int", "int", "int", "int"], "bool"),
     ("rig/routing_table/ordered_covering.py", "_get_generality", ["int", "int"], "int"),
     ("rig/machine_control/regions.py", "get_region_for_chip", ["int", "int", "int"], "int"),
+    ("rig/geometry.py", "spinn5_local_eth_coord", ["int"] * 6, "tup2"),
+    ("rig/geometry.py", "spinn5_chip_coord", ["int"] * 4, "tup2"),
+    ("rig/geometry.py", "spinn5_fpga_link", ["int"] * 5, "optnn"),
 ]
 
-LEAN_TY = {"int": "Int", "tup2": "Int × Int", "tup3": "Int × Int × Int", "slice": "Int × Int", "bool": "Bool"}
+# module-level tables of the source, already regenerated into Lean by other translator modules
+TABLES2D = {"SPINN5_ETH_OFFSET": ("Rig.Gen.Spinn5.ethOffset", "((0 : Int), (0 : Int))")}
+DICTS = {"SPINN5_FPGA_LINKS": "Rig.Gen.Spinn5.fpgaLinks"}
+
+LEAN_TY = {"int": "Int", "tup2": "Int × Int", "tup3": "Int × Int × Int", "slice": "Int × Int", "bool": "Bool",
+           "optnn": "Option (Nat × Nat)"}
 
 
 class Tr(object):
@@ -64,6 +72,18 @@ class Tr(object):
             base = n.value.id
             proj = ".2" * i + (".1" if i < arity - 1 else "")
             return "%s%s" % (base, proj)
+        # TABLE[a][b]
+        if (isinstance(n, ast.Subscript) and isinstance(n.value, ast.Subscript)
+                and isinstance(n.value.value, ast.Name) and n.value.value.id in TABLES2D):
+            lean, dflt = TABLES2D[n.value.value.id]
+            return "((%s.getD (%s).toNat []).getD (%s).toNat %s)" % (lean, self.e(n.value.slice), self.e(n.slice), dflt)
+        # DICT.get(key)
+        if (isinstance(n, ast.Call) and isinstance(n.func, ast.Attribute) and n.func.attr == "get"
+                and isinstance(n.func.value, ast.Name) and n.func.value.id in DICTS and len(n.args) == 1):
+            return "(%s.lookup %s)" % (DICTS[n.func.value.id], self.e(n.args[0]))
+        # call of another translated function
+        if isinstance(n, ast.Call) and isinstance(n.func, ast.Name) and n.func.id in [f[1] for f in FUNCS]:
+            return "(%s %s)" % (n.func.id.lstrip("_"), " ".join(self.e(a) for a in n.args))
         if isinstance(n, ast.Attribute) and isinstance(n.value, ast.Name) and self.types.get(n.value.id) == "slice":
             if n.attr == "start":
                 return n.value.id + ".1"
@@ -210,7 +230,7 @@ def translate(repo, rel, fname, ptypes, ret):
 
 
 def gen_pyfun(repo):
-    s = HEADER + "import Mathlib.Data.Int.Bitwise\nnamespace Rig.Gen.PyFun\n\n"
+    s = HEADER + "import Mathlib.Data.Int.Bitwise\nimport RigModel.Gen.Spinn5\nnamespace Rig.Gen.PyFun\n\n"
     for rel, fname, ptypes, ret in FUNCS:
         s += translate(repo, rel, fname, ptypes, ret) + "\n"
     s += "end Rig.Gen.PyFun\n"
